@@ -23,7 +23,7 @@ EXPLANATION = (
     "(R5) the per-node metadata the validators read (defaults, annotations) cannot be stale: cached views are invalidated by renames, through "
     "the MRO; (R6) strict type validation visits every value of every data edge, rejects a missing annotation on either side and asks "
     "is_type_compatible(output type, input type) in that argument order; (R7) the shared-output check compares every unordered pair of producers "
-    "(the 'ordered' relation is not transitive). (R8) gate-kind exhaustiveness: wherever a concrete gate class is tested with isinstance, the classes tested for that variable cover every concrete gate kind or the variable is then used through an attribute only the tested class declares — a validator narrowed from GateNode to one kind silently skips the others. (R9) the Union rule of strict type checking calls get_args on a type only on paths where that type is known to be a Union (a parameterised generic is never split into its type arguments)."
+    "(the 'ordered' relation is not transitive). (R8) gate-kind exhaustiveness: wherever a concrete gate class is tested with isinstance, the classes tested for that variable cover every concrete gate kind or the variable is then used through an attribute only the tested class declares — a validator narrowed from GateNode to one kind silently skips the others. (R9) the Union rule of strict type checking calls get_args on a type only on paths where that type is known to be a Union (a parameterised generic is never split into its type arguments), and the generic rule answers 'compatible' after taking both sides' type arguments only for an unparameterised side or by the pairwise comparison."
 )
 NOT_DECIDED = "The type-compatibility relation itself (a function over type objects) and the correctness of each individual validator's predicate; position independence is argued from the wiring, not tested."
 
@@ -274,6 +274,40 @@ def run(ctx) -> None:
                 rep.add("C19.R9", f"{hu.qname}:get_args({tp})#{n9}", ok, f"{hu.module.rel}:{n.lineno}", f"members of {tp} are taken only when it is a Union" if ok else f"get_args({tp}) is evaluated although {tp} need not be a Union: a parameterised generic (list[X], dict[K, V]) is split into its type arguments and the Union's members are compared with those instead of with the generic — 'str | None -> list[str | None]' is accepted by a strict graph")
     if n9 < 3:
         raise AnalysisError(f"only {n9} union decompositions found")
+    # generic rule: once both sides' type arguments are taken, 'compatible' is answered either because one side
+    # is unparameterised or by comparing the arguments pairwise — never on the strength of the origins alone
+    hg = db.func("_typing._handle_generic_types")
+    gcfg = ctx.cfg(hg)
+    gdom = dominators(gcfg.entry)
+    tps = [p_ for p_ in hg.param_names if p_.endswith("_type")]
+    arg_defs = {}
+    for n in gcfg.nodes:
+        if n.kind == "stmt" and isinstance(n.ast, ast.Assign) and isinstance(n.ast.targets[0], ast.Name) and isinstance(n.ast.value, ast.Call) and dotted(n.ast.value.func) == "get_args" and n.ast.value.args and src(n.ast.value.args[0]) in tps:
+            arg_defs[n.ast.targets[0].id] = n
+    if len(arg_defs) < 2:
+        raise AnalysisError("_handle_generic_types: type-argument bindings not recognised")
+    from sa.model import enclosing as _encl
+
+    bad_true = []
+    n_ret = 0
+    for r in gcfg.nodes:
+        if not (r.kind == "stmt" and isinstance(r.ast, ast.Return)) or not all(d in gdom.get(r, set()) for d in arg_defs.values()):
+            continue
+        n_ret += 1
+        v = r.ast.value
+        if isinstance(v, ast.Constant) and v.value is True:
+            g_ = _encl(r.ast, (ast.If,))
+            names = {x.id for x in ast.walk(g_.test) if isinstance(x, ast.Name)} if g_ is not None else set()
+            if g_ is None or not names or not names <= set(arg_defs):
+                bad_true.append(r)
+        elif isinstance(v, ast.Constant) and v.value in (False, None):
+            continue
+        elif isinstance(v, ast.Call) and dotted(v.func) == "all" and all(a_ in src(v) for a_ in arg_defs) and "is_type_compatible" in src(v):
+            continue
+        else:
+            bad_true.append(r)
+    ok = n_ret >= 3 and not bad_true
+    rep.add("C19.R9", f"{hg.qname}:args-compared", ok, f"{hg.module.rel}:{bad_true[0].lineno if bad_true else hg.lineno}", "after the type arguments are taken, 'compatible' comes from an unparameterised side or from the pairwise comparison of the arguments" if ok else f"'{src(bad_true[0].ast)}' answers for parameterised generics without comparing their type arguments (guard: '{src(_encl(bad_true[0].ast, (ast.If,)).test) if _encl(bad_true[0].ast, (ast.If,)) is not None else 'none'}'): list[int] -> Sequence[str] is accepted by a strict graph")
 
     # ---- R7 ---------------------------------------------------------------------
     voc_f = db.func("graph._conflict.validate_output_conflicts")
@@ -414,6 +448,7 @@ def check_gate_kind_exhaustive(ctx, rule: str, modules: tuple[str, ...] = ("hype
 
 
 VARIANTS = [
+    Variant("subclass-generic-args-unchecked", "src/hypergraph/_typing.py", replace_once("        # Require same arity for generic args\n", "        if incoming_origin is not required_origin:\n            return True\n\n        # Require same arity for generic args\n"), {"C19.R9"}),
     Variant("identifier-check-data-outputs-only", VA, replace_once("        for output in node.outputs:\n            if not output.isidentifier():", "        for output in node.data_outputs:\n            if not output.isidentifier():"), {"C19.R10"}),
     Variant("union-rule-splits-generic", "src/hypergraph/_typing.py", replace_once("        return all(is_type_compatible(t, required_type, memo) for t in get_args(incoming_type))", "        required_args = get_args(required_type) or (required_type,)\n        return _all_types_compatible(get_args(incoming_type), required_args, memo)"), {"C19.R9"}),
     Variant("gate-targets-route-only", VA, chain(replace_once("    from hypergraph.nodes.gate import END, GateNode\n\n    for node in nodes.values():\n        if not isinstance(node, GateNode):\n            continue\n\n        for target in node.targets:", "    from hypergraph.nodes.gate import END, RouteNode\n\n    for node in nodes.values():\n        if not isinstance(node, RouteNode):\n            continue\n\n        for target in node.targets:")), {"C19.R8"}),
